@@ -4,6 +4,7 @@ import (
 	"fmt"
 	"math"
 	"testing"
+	"verif/harness/gen"
 
 	"pgregory.net/rapid"
 
@@ -24,9 +25,18 @@ type c09PureCase struct {
 }
 
 func genWeights(rt *rapid.T, n int) []uint64 {
-	kind := rapid.IntRange(0, 5).Draw(rt, "wkind")
+	kind := rapid.IntRange(0, 7).Draw(rt, "wkind") // 6 and 7: power classes (twice the weight of the other families)
+	if kind == 7 {
+		kind = 6
+	}
 	w := make([]uint64, n)
 	switch kind {
+	case 6: // two or three power classes: several tries reach the same best total weight
+		cls := []uint64{rapid.Uint64Range(1, 1000).Draw(rt, "c1"), rapid.Uint64Range(1, 1000).Draw(rt, "c2"), rapid.Uint64Range(1, 1000).Draw(rt, "c3")}
+		k := rapid.IntRange(2, 3).Draw(rt, "ncls")
+		for i := range w {
+			w[i] = cls[rapid.IntRange(0, k-1).Draw(rt, "cls")]
+		}
 	case 0: // equal
 		x := rapid.Uint64Range(1, 1_000_000).Draw(rt, "eq")
 		for i := range w {
@@ -67,7 +77,7 @@ func genC09Pure(rt *rapid.T) c09PureCase {
 		ChainID: rapid.StringMatching(`[a-z0-9\-]{1,30}`).Draw(rt, "chain"),
 		Weights: genWeights(rt, n),
 		Cnt:     rapid.IntRange(1, n).Draw(rt, "cnt"),
-		Tries:   rapid.IntRange(1, 5).Draw(rt, "tries"),
+		Tries:   gen.OneOf(rt, "tries", 1, 1, 2, 3, 3, 4, 5, 12, 13, 14, 20, 50, 100), // SamplingTryCount may be anything in 1..100
 		Stream:  rapid.IntRange(0, 4).Draw(rt, "stream"),
 	}
 	return c
